@@ -226,3 +226,17 @@ func init() {
 		},
 	}
 }
+
+func init() {
+	properties["C16"] = Property{
+		Level: "exploration",
+		Rule:  "one case = one job life (add -> fire / remove / replace) in a recorded run; in-memory cron: 10 runs per round in parallel (directed patterns: remove the head and stay quiet, replace the head by a later time, add earlier than the head, add during suspension, pause, remove a recurring job during its run, recurring + one-shot; and random mixes over 4 ids with due 50-800 ms, removals, suspend/resume/pause windows, slow callbacks), Timeline walked under the cron's lock at quiescent points; Bolt-backed cron (overlay test in package main): operation sequences with harness-driven work() ticks, fires observed as hits on an httptest server, jobs<p>/time<p> buckets compared key for key after every operation and after every close/reopen; non-trivial = the job was replaced, removed, or overlapped a suspend/pause window (crolt: was deleted, duplicated or lived across a reopen); distinct by (run seed, pattern, job id, generation)",
+		Floor: [2]int{30, 100},
+		Assumptions: []string{"no-early-fire and no-fire-after-Rem are judged on monotonic call/return stamps; 'fires when due' is bounded progress (due + 1.5 s, outside suspend/pause windows) judged only when a canary timer was on time", "crolt: a job's due time is the time in its own TId key (jitter set to 0)"},
+		Stages: []Stage{
+			{Name: "mem", Pkg: "./mon/c16", Race: true, Procs: 4, Batches: [2]int{2, 4}, TimeoutS: [2]int{600, 1800}},
+			{Name: "crolt", OverlayPkg: "crolt", TestRun: "^TestVerifC16$", Procs: 2, Batches: [2]int{2, 4}, TimeoutS: [2]int{600, 1800},
+				OverlayFiles: map[string]string{"crolt/zz_verif_c16_test.go": "crolt/zz_verif_c16_test.go", "crolt/zz_verif_util_test.go": "crolt/zz_verif_util_test.go", "crolt/zz_verif_rep_test.go": "gen:lib/rep/rep.go:main"}},
+		},
+	}
+}
